@@ -18,7 +18,7 @@ EXPLANATION = (
     "h (digital), d / |1> (XY) in QutipResult._weights, State.infer_one_state and EIGENSTATES (second XY state, first ground-rydberg state), and the ground-rydberg qubit vector order is reversed exactly once. "
     "SIB: both samplers flip a measured 1 with the false-negative rate and a measured 0 with the false-positive rate (np.where(bit == 1, <false-neg>, <false-pos>)), the legacy names are tied by "
     "_DIFF_NOISE_PARAMS (p_false_pos->epsilon, p_false_neg->epsilon_prime) and BitStrings passes both rates by keyword; weights are normalised by their sum. "
-    "NOT decided: normalisation/positivity of evolved states, Rabi oscillation, legacy/V2 agreement (runtime numerics)."
+    "NOT decided: normalisation/positivity of evolved states, Rabi oscillation, legacy/V2 agreement (runtime numerics). SIB (added): the unflipped sample is returned only when both detection rates are zero (or none is configured); sample_final_state delegates to the overridable sample_state; set_config and add_config both keep the initial state iff the dimension is unchanged. WEIGHT: every Monte-Carlo term carries the multiplicity of its run and the sum is divided by the total. SUFFIX: a basis name that may carry '_with_error' is never tested with ==. PASS: every call of _run_solver/_noisy_runs hands over options that passed _validate_options. UNIT: the total duration is converted from ns to us by one idiom everywhere in the emulator."
 )
 ASSUMPTIONS = ["declared types come from annotations; numpy arrays are recognised by their annotation names", "the unflipped-return rule reads the alternatives of the symbolic return value (pstatic/sym.py); the convention tables are compared with the literals of the source and of docs/source/conventions.md"]
 
